@@ -46,12 +46,24 @@ def region_of(df, m, emb, dims=None, units=None, flip=None, **kw):
         lo, hi = [int(v) for v in lo], [int(v) for v in hi]
     p1 = [hi[d] if flip[d] else lo[d] for d in range(nd)]
     p2 = [lo[d] if flip[d] else hi[d] for d in range(nd)]
+    # the container type of the corners is a harness-level choice too: list / tuple / ndarray
+    form = (sum(int(x) for x in m["n"]) + nd) % 3
+    if form == 1:
+        p1, p2 = tuple(p1), tuple(p2)
+    elif form == 2:
+        p1, p2 = np.array(p1), np.array(p2)
     return df.Region(p1=p1, p2=p2, dims=dims, units=units, **kw)
 
 
 def mesh_of(df, m, emb, dims=None, units=None, flip=None, bc="", subregions=None):
     reg = region_of(df, m, emb, dims=dims, units=units, flip=flip)
-    return df.Mesh(region=reg, n=tuple(int(x) for x in m["n"]), bc=bc, subregions=subregions)
+    n = tuple(int(x) for x in m["n"])
+    form = (sum(n) + int(m["c"][0]) // 4) % 3
+    if form == 1:
+        n = list(n)
+    elif form == 2:
+        n = np.array(n)
+    return df.Mesh(region=reg, n=n, bc=bc, subregions=subregions)
 
 
 def box_region(df, b, emb, **kw):
